@@ -1936,6 +1936,14 @@ class Generator:
                 ev_sel = [a, b]
         size = c.doc.content.size
         sel = (min(sel[0], size), min(max(sel), size))
+        if size > sim.cfg.get("size_cap", 260) and rng.random() < 0.7:
+            # size governor: every oracle is at least linear in the document size; keep documents
+            # at the size of a page by cutting a large range now and then
+            a = rng.randint(0, size)
+            b = min(size, a + rng.randint(size // 4, size // 2))
+            self.emit({"k": "edit", "c": c.cid, "ops": [{"op": rng.choice(["delete", "delete_range"]),
+                                                         "from": a, "to": b}]})
+            return
         for _ in range(6):
             kind = rng.choices(kinds, weights)[0]
             try:
